@@ -6,7 +6,9 @@
    Content line kinds: "plain", "blank", "ind" (leading spaces), "q" (looks like a quote prefix '> x'), "b" (looks like
    a list item '- x'), and fence look-alikes "t3" "t4" "t5" (3/4/5 backticks) and "w3" "w4" (3/4 tildes), "t3x" (three
    backticks followed by text: not a closing fence but counted by the code), "s3" / "sw3" (three backticks / tildes indented by
-   1-3 spaces: CommonMark accepts a closing fence indented up to 3 spaces).
+   1-3 spaces: CommonMark accepts a closing fence indented up to 3 spaces), "s3i" (a backtick fence run behind ONE space that is
+   harmless in the source only because the whole fenced block is written 3 spaces to the right -- the parser removes that indent, the
+   renderer writes the block unindented, and the line becomes a closing-fence candidate; always legal).
    The machine emits one line per action: Open, Content(i), Close.  Properties:
      ContentVerbatim  -- the emitted content lines are the authored lines, in order, each behind the continuation prefix,
      BlankNoTrailing  -- an empty content line carries the right-stripped prefix (no trailing spaces),
@@ -31,7 +33,7 @@ Legal(b) == /\ (b.fl = 0 => b.fc = "`" /\ b.info = "none" /\ b.lines # <<>> /\ b
             /\ \A j \in 1..Len(b.lines) : ~(b.fl > 0 /\ b.fl <= 3 /\ ((b.fc = "`" /\ b.lines[j] = "s3") \/ (b.fc = "~" /\ b.lines[j] = "sw3")))
             /\ \A j \in 1..Len(b.lines) : ~(b.fl > 0 /\ b.fc = "`" /\ ((b.lines[j] = "t3" /\ b.fl <= 3) \/ (b.lines[j] = "t4" /\ b.fl <= 4) \/ b.lines[j] = "t5"))
             /\ \A j \in 1..Len(b.lines) : ~(b.fl > 0 /\ b.fc = "~" /\ ((b.lines[j] = "w3" /\ b.fl <= 3) \/ (b.lines[j] = "w4" /\ b.fl <= 4)))
-Run(kind, fc) == CASE kind \in {"t3", "t3x", "s3"} /\ fc = "`" -> 3 [] kind = "sw3" /\ fc = "~" -> 3 [] kind = "t4" /\ fc = "`" -> 4 [] kind = "t5" /\ fc = "`" -> 5
+Run(kind, fc) == CASE kind \in {"t3", "t3x", "s3", "s3i"} /\ fc = "`" -> 3 [] kind = "sw3" /\ fc = "~" -> 3 [] kind = "t4" /\ fc = "`" -> 4 [] kind = "t5" /\ fc = "`" -> 5
                    [] kind = "w3" /\ fc = "~" -> 3 [] kind = "w4" /\ fc = "~" -> 4 [] OTHER -> 0
 \* a content line can close the block only if it is NOTHING BUT a fence run (CommonMark: a closing fence carries no info string):
 \* "t3x" (three backticks followed by text) is counted by the implementation's _min_fence_length but is no danger to the block
